@@ -20,13 +20,14 @@ import (
 	"time"
 
 	"github.com/anthdm/hollywood/actor"
+	"github.com/anthdm/hollywood/remote"
 )
 
 func init() {
 	register(&prop{
 		id:    "C11",
 		level: "exploration",
-		rule: "PRNG rounds: 1-32 concurrent requesters x 1-4 responders x behaviour per request {immediate, released-before-Result, late (released after the timeout error was returned), twice, never, Result called after the timeout, two replies back to back, 3-5 replies from different goroutines in flight before Result, no reply with a zero or negative timeout}; every request carries a unique id and every reply names the id it answers; " +
+		rule: "PRNG rounds: 1-32 concurrent requesters x 1-4 responders x behaviour per request {immediate, released-before-Result, late (released after the timeout error was returned), twice, never, Result called after the timeout, two replies back to back, 3-5 replies from different goroutines in flight before Result, no reply with a zero or negative timeout}, issued through Engine.Request or through Context.Request of an actor (also one whose spawn context is cancelled); tcp: requests to an actor on another node interleaved with fire-and-forget messages to it; every request carries a unique id and every reply names the id it answers; " +
 			"non-trivial = >=2 requests outstanding at once; distinct by (requesters, responders, multiset of behaviours). Rounds in which ActorDuplicateIdEvent{response/...} occurs (random response-id collision, D13) are classified and not judged",
 		assumptions: []string{
 			"timeouts are only judged from below: an error must not come before the timeout has elapsed on the monotonic clock; that it comes at all is covered by a generous watchdog; when it expires the verdict is taken from the state of the process: at rest (every goroutine parked, see atRest) means Result() will never return - a violation - anything else is inconclusive",
@@ -42,11 +43,15 @@ func init() {
 				{name: "storm", n: 16, perChild: 1, timeout: 30 * time.Minute},
 				{name: "req", n: n, perChild: n / 16, timeout: 30 * time.Minute},
 				{name: "req-chaos", n: n, perChild: n / 16, timeout: 30 * time.Minute, env: []string{"VERIF_HOOK=chaos", "VERIF_HOOK_PROB=30", "VERIF_HOOK_MAXUS=50"}},
+				{name: "tcp", n: 8 + n/100, perChild: 2, netns: true, timeout: 20 * time.Minute},
 			}
 		},
 		run: func(c *caseCtx) caseResult {
 			if c.mode == "storm" {
 				return c11Storm(c)
+			}
+			if c.mode == "tcp" {
+				return c11Tcp(c)
 			}
 			return c11Run(c)
 		},
@@ -498,5 +503,63 @@ func c11Storm(c *caseCtx) (res caseResult) {
 		res.Sample = map[string]any{"scenario": res.Desc, "response_id_collisions": coll}
 	}
 	e.Poison(rsp)
+	return res
+}
+
+// c11Tcp: requests to an actor on another node over real loopback TCP, interleaved from the same
+// goroutines with fire-and-forget messages to the same actor, which answers whoever shows up as the
+// sender. Every Result() must return the reply to its own request.
+func c11Tcp(c *caseCtx) (res caseResult) {
+	r := c.rng
+	wd := watchdog(c.tier)
+	addrs := freeAddrs(c, 2)
+	n1, err := c17StartNode(addrs[0], 1, nil)
+	if err != nil {
+		res.inconclusive("node 1: %v", err)
+		return
+	}
+	defer func() { n1.rem.Stop().Wait() }()
+	n2, err := c17StartNode(addrs[1], 2, nil)
+	if err != nil {
+		res.inconclusive("node 2: %v", err)
+		return
+	}
+	defer func() { n2.rem.Stop().Wait() }()
+	nG := 2 + r.Intn(6)
+	per := 20 + r.Intn(60)
+	var wg sync.WaitGroup
+	bad := make([]string, nG)
+	for g := 0; g < nG; g++ {
+		g := g
+		wg.Add(1)
+		go func() {
+			defer wg.Done()
+			tgt := actor.NewPID(addrs[1], fmt.Sprintf("t/%d", g%2))
+			for i := 0; i < per && bad[g] == ""; i++ {
+				id := fmt.Sprintf("%d-%d", g, i)
+				resp := n1.eng.Request(tgt, &remote.TestMessage{Data: []byte("req-" + id)}, wd)
+				for k := 0; k < 1+i%3; k++ {
+					n1.eng.Send(tgt, &remote.TestMessage{Data: []byte(fmt.Sprintf("note-%s-%d", id, k))})
+				}
+				v, err := resp.Result()
+				if err != nil {
+					bad[g] = fmt.Sprintf("request %s: %v", id, err)
+				} else if m, ok := v.(*remote.TestMessage); !ok || string(m.Data) != "rep-"+id {
+					bad[g] = fmt.Sprintf("request %s returned %v: the reply to something else (cross-talk)", id, v)
+				}
+			}
+		}()
+	}
+	wg.Wait()
+	for _, b := range bad {
+		if strings.Contains(b, "cross-talk") {
+			res.violate("%s", b)
+		} else if b != "" && res.Verdict != vViolated {
+			res.inconclusive("%s", b)
+		}
+	}
+	res.Desc = fmt.Sprintf("tcp: %d requesters x %d requests to an actor on another node, fire-and-forget messages in between", nG, per)
+	res.count("remote_requests", int64(nG*per))
+	res.Sig = sigHash("c11tcp", nG, per/10)
 	return res
 }
